@@ -651,6 +651,8 @@ static std::map< std::string, int > g_sampled;
 static bool eval_case( const Family& f, const std::string& s, bool allow_seq = true )
 {
    ++vf::st.evaluations;
+   vf::term_site = f.name;
+   vf::term_case = f.name + ":" + vf::hex( s );
    const Expect e = orc_expect( f, s );
    const long sentinel = ( e.kind == E_ACCEPT && e.mag == 123 ) ? 77 : 123;  // detects "reported success but stored nothing"
    bool overread = false;
@@ -733,6 +735,7 @@ static const Family* find_family( const std::string& name )
 int main( int argc, char** argv )
 {
    vf::parse_args( argc, argv );
+   vf::guard_terminate( "C15" );
    setup_guard();
    register_all();
 
